@@ -393,7 +393,8 @@ class MemFs(VirtualFilestore):
             if not (isinstance(nbytes, int) and nbytes == 0):
                 f.log.append((0, SymBytes(-1, 0, nbytes)))
         else:
-            self.conc[_pkey(p)] = bytearray(b"\xee" * nbytes)
+            given = bytes.fromhex(self.w.ctx.model_in.get("_old", ""))
+            self.conc[_pkey(p)] = bytearray((given + b"\xee" * nbytes)[:nbytes])
         self.files[_pkey(p)] = f
 
     # -- symbolic content queries
@@ -847,6 +848,11 @@ class World:
                 size = ev(self.ctx.vars[name]).as_long()
         if size is not None and 0 <= size <= 2048:
             out["_src"] = bytes(ev(C(0, i)).as_long() for i in range(size)).hex()
+        if "old_len" in self.ctx.vars:
+            # content of a pre-existing (foreign) destination file as the solver chose it
+            n_old = ev(self.ctx.vars["old_len"]).as_long()
+            if 0 <= n_old <= 2048:
+                out["_old"] = bytes(ev(C(-1, i)).as_long() % 256 for i in range(n_old)).hex()
         bad = {}
         for (k, start, n) in self.bad_payloads:
             st, nn = ev(_z(start)).as_long(), ev(_z(n)).as_long()
